@@ -169,6 +169,77 @@ M('c13_merge_csr_offset', 'C13', 'cell_type_mapper/utils/anndata_utils.py',
 M('c13_unsorted_minor', 'C13', 'cell_type_mapper/utils/csc_to_csr.py',
   "                this_index = this_index[col_sorted_dex]\n", "                this_index = this_index[col_sorted_dex[::-1]]\n")
 
+# ---- C09 ------------------------------------------------------------------------------------
+M('c09_ge1_strict', 'C09', 'cell_type_mapper/utils/stats_utils.py',
+  "    result['ge1'] = (data > one_cutoff-eps).sum(axis=0)", "    result['ge1'] = (data > one_cutoff+eps).sum(axis=0)")
+M('c09_last_chunk_dropped', 'C09', 'cell_type_mapper/diff_exp/precompute_from_anndata.py',
+  "        for r0 in range(0, n_cells, rows_at_a_time):\n            r1 = min(n_cells, r0+rows_at_a_time)",
+  "        for r0 in range(0, n_cells, rows_at_a_time):\n            r1 = min(n_cells - (1 if n_cells > 9 and r0 > 0 else 0), r0+rows_at_a_time)")
+M('c09_unlabelled_counted', 'C09', 'cell_type_mapper/diff_exp/precompute_from_anndata.py',
+  "        if unq_cluster == bad_row_idx:\n            continue", "        if unq_cluster == bad_row_idx:\n            unq_cluster = 0")
+M('c09_truncate_keeps_one_leaf', 'C09', 'cell_type_mapper/diff_exp/truncate_precompute.py',
+  "        src_rows.sort()\n        src_rows = np.array(src_rows)", "        src_rows.sort()\n        src_rows = np.array(src_rows[:2])")
+M('c09_merge_fewest', 'C09', 'cell_type_mapper/diff_exp/precompute_utils.py',
+  "                to_replace = np.where(src_n_cells > dst_n_cells)[0]", "                to_replace = np.where(src_n_cells < dst_n_cells)[0]")
+M('c09_sumsq_of_sum', 'C09', 'cell_type_mapper/diff_exp/precompute_from_anndata.py',
+  "                    final_output[k][:, :] += src[k][()]", "                    final_output[k][:, :] += (src[k][()] if k != 'gt0' else np.minimum(src[k][()], 1))")
+
+# ---- C16 ------------------------------------------------------------------------------------
+M('c16_uint8_for_255_5', 'C16', 'cell_type_mapper/utils/utils.py',
+  "    int_min = np.round(x_minmax[0])\n    int_max = np.round(x_minmax[1])", "    int_min = np.floor(x_minmax[0])\n    int_max = np.floor(x_minmax[1])")
+M('c16_floor_instead_of_round', 'C16', 'cell_type_mapper/validation/utils.py',
+  "np.round(", "np.floor(", count=None)
+M('c16_in_place', 'C16', 'cell_type_mapper/validation/validate_h5ad.py',
+  "            write_df_to_h5ad(\n                h5ad_path=tmp_h5ad_path,\n                df_name='var',\n                df_value=mapped_var)",
+  "            write_df_to_h5ad(\n                h5ad_path=original_h5ad_path,\n                df_name='var',\n                df_value=mapped_var)")
+M('c16_no_cleanup_on_error', 'C16', 'cell_type_mapper/validation/validate_h5ad.py',
+  "    finally:\n        _clean_up(tmp_dir)\n\n    return result", "    except ZeroDivisionError:\n        raise\n    _clean_up(tmp_dir)\n\n    return result")
+M('c16_version_kept', 'C16', 'cell_type_mapper/gene_id/gene_id_mapper.py',
+  "        return [n.split('.')[0] for n in gene_id_array]", "        return [n for n in gene_id_array]")
+M('c16_mapped_count', 'C16', 'cell_type_mapper/validation/validate_h5ad.py',
+  "            {'AIBS_CDM_n_mapped_genes': n_genes-n_unmapped_genes})", "            {'AIBS_CDM_n_mapped_genes': n_genes})")
+
+# ---- C11 ------------------------------------------------------------------------------------
+M('c11_holm_off_by_one', 'C11', 'cell_type_mapper/utils/stats_utils.py',
+  "    t_denom = n_p+padding+1-np.arange(1, n_p+1, dtype=int)", "    t_denom = n_p+padding-np.arange(1, n_p+1, dtype=int)")
+M('c11_direction_flipped', 'C11', 'cell_type_mapper/diff_exp/scores.py',
+  "    up_mask[stats_2[\"mean\"] > stats_1[\"mean\"]] = 1", "    up_mask[stats_2[\"mean\"] < stats_1[\"mean\"]] = 1")
+M('c11_floors_ignored', 'C11', 'cell_type_mapper/diff_exp/scores.py',
+  "        valid[distances['invalid']] = False\n", "")
+M('c11_single_cell_clusters', 'C11', 'cell_type_mapper/diff_exp/scores.py',
+  "        n_cells_min=2,", "        n_cells_min=1,")
+M('c11_no_holm', 'C11', 'cell_type_mapper/diff_exp/scores.py',
+  "        pvalues = approx_correct_ttest(pvalues, p_th=p_th)", "        pvalues = pvalues")
+M('c11_gene_list_ignored', 'C11', 'cell_type_mapper/diff_exp/scores.py',
+  "    if valid_gene_idx is not None:\n        invalid_mask = np.zeros(pij_1.shape, dtype=bool)", "    if valid_gene_idx is not None and False:\n        invalid_mask = np.zeros(pij_1.shape, dtype=bool)")
+M('c11_pmask_floor_ignored', 'C11', 'cell_type_mapper/diff_exp/p_value_mask.py',
+  "        valid[distances['invalid']] = False\n", "")
+M('c11_exact_uses_q1_only', 'C11', 'cell_type_mapper/diff_exp/scores.py',
+  "    return np.logical_and(q1_valid, qdiff_valid)", "    return q1_valid")
+M('c11_transpose_wrong_direction', 'C11', 'cell_type_mapper/diff_exp/markers.py',
+  "                    f'{direction}_pair_idx',\n                    data=src['indices'],", "                    f'{direction}_pair_idx',\n                    data=src['indices'][()][::-1],")
+
+# ---- C12 ------------------------------------------------------------------------------------
+M('c12_stop_at_target_total', 'C12', 'cell_type_mapper/marker_selection/selection.py',
+  "    tot_maxed = (tot_counts >= 2*n_per_utility)", "    tot_maxed = (tot_counts >= n_per_utility)")
+M('c12_full_regardless_of_possible', 'C12', 'cell_type_mapper/marker_selection/selection.py',
+  "    newly_full_mask[:, 0] = np.logical_and(newly_full_mask[:, 0], are_possible)\n    newly_full_mask[:, 1] = np.logical_and(newly_full_mask[:, 1], are_possible)\n",
+  "")
+M('c12_desperate_skipped', 'C12', 'cell_type_mapper/marker_selection/selection.py',
+  "        n_desperate=n_per_utility)", "        n_desperate=0)")
+M('c12_query_filter_dropped', 'C12', 'cell_type_mapper/marker_selection/selection.py',
+  "    marker_gene_array = thin_marker_gene_array_by_gene(\n        marker_gene_array=marker_gene_array,\n        query_gene_names=query_gene_names,\n        tmp_dir=tmp_dir)\n",
+  "    pass\n")
+MUTANTS['c12_query_filter_dropped']['extra'] = [(
+  'cell_type_mapper/marker_selection/selection_pipeline.py',
+  "        cache_path=marker_cache_path,\n        query_gene_names=query_gene_names,",
+  "        cache_path=marker_cache_path,\n        query_gene_names=None,")]
+M('c12_completion_order_result', 'C12', 'cell_type_mapper/marker_selection/selection_pipeline.py',
+  "    output_dict[parent_node] = marker_genes\n", "    output_dict[parent_node] = marker_genes if len(output_dict) < 2 else marker_genes[:-1]\n")
+M('c12_override_ignored', 'C12', 'cell_type_mapper/marker_selection/selection_pipeline.py',
+  "                    if chosen_parent in n_per_utility_override:\n                        this_n_per = n_per_utility_override[chosen_parent]",
+  "                    if chosen_parent in n_per_utility_override:\n                        this_n_per = min(n_per_utility, n_per_utility_override[chosen_parent])")
+
 
 def run_mutant(name, tier='quick'):
     m = MUTANTS[name]
@@ -180,7 +251,7 @@ def run_mutant(name, tier='quick'):
     fp = os.path.join(src, m['path'])
     with open(fp) as f:
         text = f.read()
-    if text.count(m['old']) != m.get('count', 1):
+    if m.get('count', 1) is not None and text.count(m['old']) != m.get('count', 1):
         shutil.rmtree(scratch, ignore_errors=True)
         return {'name': name, 'status': 'PATTERN-NOT-FOUND(%d)' % text.count(m['old'])}
     with open(fp, 'w') as f:
